@@ -226,4 +226,41 @@ CASES = [
     M('C19', 'telescope test inverted', (TEL, "        if ((not self.telescope_status) and self.telescope_use == 0):", "        if ((not self.telescope_status) or self.telescope_use == 0):")),
     W('C19', 'De Morgan rewrite', (TEL, "        if ((not self.telescope_status) and self.telescope_use == 0):\n            return True\n        return False", "        if self.telescope_status or self.telescope_use != 0:\n            return False\n        return True")),
     W('C19', 'scheduler query via truthiness', (S, "        return len(self.observation_queue) == 0", "        return not self.observation_queue")),
+    # ---------------- round 7 rules
+    M('C04', 'scheduler polls the buffer only under a cheap test (T14)',
+      (S, "            if self.buffer.has_observations_ready_for_processing():",
+       "            if len(self.buffer.waiting_observation_list) > 0 and self.buffer.has_observations_ready_for_processing():")),
+    W('C04', 'poll result through a temporary (T14)',
+      (S, "            if self.buffer.has_observations_ready_for_processing():",
+       "            ready_now = self.buffer.has_observations_ready_for_processing()\n            if ready_now:")),
+    M('C04', 'pool scan left at the first task whose predecessors are unfinished (T15)',
+      (QA, "                        if count < len(list(pred)):\n                            continue",
+       "                        if count < len(list(pred)):\n                            break")),
+    M('C04', 'unfinished task dropped when the last listed one is finished (T3 equivalence)',
+      (S, "            if t.task_status is not TaskStatus.FINISHED:\n                remaining_tasks.append(t)",
+       "            if t.task_status is not TaskStatus.FINISHED and not (current_plan.tasks and current_plan.tasks[-1].task_status is TaskStatus.FINISHED):\n                remaining_tasks.append(t)")),
+    M('C06', 'plain duration returned although the task has a delay model (W3)',
+      (T, "        if self.delay is not None:\n            return self.delay.generate_delay(self.duration)",
+       "        if self.delay is not None and self.duration >= 1:\n            return self.delay.generate_delay(self.duration)")),
+    M('C08', 'observation loop left at the first observation that is not due (A14)',
+      (TEL, "            for observation in self.observations:\n",
+       "            for observation in self.observations:\n                if observation.est > self.env.now:\n                    break\n")),
+    M('C10', 'pool sorted by a value computed from the id (D1)',
+      (BA, "            for task in sorted(task_pool, key=lambda t: t.id):", "            for task in sorted(task_pool, key=lambda t: len(t.id)):")),
+    M('C10', 'generator kept in the delay model (D2)',
+      (DLY, "        self.seed = seed\n", "        self.seed = seed\n        self._rng = default_rng(seed)\n")),
+    M('C14', 'plan re-sorts its task list by (est, id) (G5)',
+      (PLN, "        self.tasks = tasks\n", "        self.tasks = sorted(tasks, key=lambda t: (t.est, t.id))\n")),
+    W('C14', 'plan keeps a stable sort by planned start (G5)',
+      (PLN, "        self.tasks = tasks\n", "        self.tasks = sorted(tasks, key=lambda t: t.est)\n")),
+    M('C15', 'delay test made on a copy of the duration taken before it is recomputed (Y5)',
+      (T, "        if (self.flops > 0) or (self.task_data > 0):\n            self.duration = self.calculate_runtime(machine)",
+       "        planned = self.duration\n        if (self.flops > 0) or (self.task_data > 0):\n            self.duration = self.calculate_runtime(machine)"),
+      (T, "        if self.duration < total_duration:\n            self.delay_flag = True", "        if planned < total_duration:\n            self.delay_flag = True")),
+    M('C15', 'delay book-keeping skipped when nothing remains (Y5)',
+      (S, "        remaining_tasks = []\n        for t in current_plan.tasks:",
+       "        remaining_tasks = []\n        if all(t.task_status is TaskStatus.FINISHED for t in current_plan.tasks):\n            return remaining_tasks\n        for t in current_plan.tasks:")),
+    M('C17', 'scheduler core puts a pair into the schedule itself (S3)',
+      (S, "        # If the workflow is finished\n        if not schedule and status is WorkflowStatus.FINISHED:",
+       "        if not schedule and len(current_plan.tasks) == 1 and self.cluster.get_available_resources():\n            schedule[current_plan.tasks[0]] = self.cluster.get_available_resources()[0]\n        if not schedule and status is WorkflowStatus.FINISHED:")),
 ]
